@@ -222,6 +222,7 @@ func c07History(c *Ctx) {
 			c07Client{Listener: []string{"http", "fasthttp", "https"}[i%3], Hdr: fmt.Sprintf("2001:db8::%x", 100+i)}, // C
 		)
 	}
+	lag := startLagMonitor()
 	stop := time.Now().Add(dur)
 	var wg sync.WaitGroup
 	for ci, cl := range clients {
@@ -254,10 +255,15 @@ func c07History(c *Ctx) {
 		c.Violation("proxy-died", "the proxy died in the history scenario: "+res.Panic, map[string]any{"panic": res.Panic})
 		return
 	}
-	c07JudgeHistory(c, h, fetches, ttl)
+	lag.Stop()
+	c.Ev.Set("hist_max_timer_lag_ms", lag.Max().Milliseconds())
+	c07JudgeHistory(c, h, fetches, ttl, lag.overloaded())
 }
 
-func c07JudgeHistory(c *Ctx, h *chHist, fetches map[string][]*chFetch, ttl int) {
+func c07JudgeHistory(c *Ctx, h *chHist, fetches map[string][]*chFetch, ttl int, overloaded bool) {
+	if overloaded {
+		c.Inconclusive("machine overloaded during the history scenario: the hit-required rule (which relies on the cache clock) is not applied")
+	}
 	fetchBySerial := map[string]*chFetch{} // key|serial
 	for k, fs := range fetches {
 		for _, f := range fs {
@@ -355,7 +361,7 @@ func c07JudgeHistory(c *Ctx, h *chHist, fetches map[string][]*chFetch, ttl int) 
 			if !strings.HasPrefix(sk, r.Key+"|") || si.fetch.Serial == r.Serial || !si.groups[r.Group] || len(si.groups) != 1 {
 				continue
 			}
-			if si.storeUB <= r.TSend && r.TRecv-si.fetch.TSend < lifetime-int64(1300*time.Millisecond) {
+			if !overloaded && si.storeUB <= r.TSend && r.TRecv-si.fetch.TSend < lifetime-int64(2300*time.Millisecond) {
 				lost++
 				c.Violation("hist:miss-inside-lifetime", fmt.Sprintf("query for %s from group %q went upstream (reply %d) although reply %d for the same (key, group) was stored %v before and at most %v old (lifetime %ds)",
 					r.Key, r.Group, r.Serial, si.fetch.Serial, time.Duration(r.TSend-si.storeUB), time.Duration(r.TRecv-si.fetch.TSend), ttl),
